@@ -458,9 +458,33 @@ pub fn verdict(h: &GenHistory) -> Verdict {
     }
     match decode_reply(&h.stdout) {
         Ok((reply, _)) if reply.diagnostics.iter().any(|d| d.level >= 2) => Verdict::Unspecified,
+        // A corrupted reply that still decodes may name files no sensible generator would: absolute paths (they
+        // leave the hermetic world), names the OS cannot create, paths that climb out of the output directory.
+        // What becomes of those is not fixed by the statement; nothing beyond "no crash, no hang" is judged then.
+        Ok((reply, _)) if reply.files.iter().any(|f| outlandish_path(&f.path)) => Verdict::Unspecified,
         Ok((reply, _)) => Verdict::Ok(reply),
         Err(e) => Verdict::Failed(format!("reply of {} bytes does not decode: {e}", h.stdout.len())),
     }
+}
+
+fn outlandish_path(raw: &[u8]) -> bool {
+    let Ok(p) = std::str::from_utf8(raw) else { return true };
+    if p.is_empty() || p.starts_with('/') || p.contains('\0') || p.len() > 1000 || p.split('/').any(|c| c.len() > 200) {
+        return true;
+    }
+    // climbing above the directory it is joined to
+    let mut depth: i64 = 0;
+    for c in p.split('/') {
+        match c {
+            "" | "." => {}
+            ".." => depth -= 1,
+            _ => depth += 1,
+        }
+        if depth < 0 {
+            return true;
+        }
+    }
+    depth <= 0 || p.ends_with('/') || matches!(p.rsplit('/').next(), Some(".") | Some(".."))
 }
 
 fn fs_faults_fired_on(r: &RunResult, path: &str) -> bool {
@@ -498,6 +522,16 @@ fn write_events_on(r: &RunResult, path: &str) -> Vec<String> {
 /// True if the world, as it was before the run, makes a plain `create + write` of this path impossible for the
 /// unprivileged compiler (the statement promises nothing then, except that the failure is reported).
 fn create_blocked(before: &Tree, path: &str) -> bool {
+    // names no file can have (a corrupted reply that still decodes may ask for them)
+    let unusable = path.is_empty()
+        || path.contains('\0')
+        || path.contains('\u{FFFD}')
+        || path.ends_with('/')
+        || path.split('/').any(|c| c.len() > 255)
+        || matches!(path.rsplit('/').next(), Some("") | Some(".") | Some(".."));
+    if unusable {
+        return true;
+    }
     if let Some(n) = before.get(path) {
         match n.kind {
             NodeKind::File => {
